@@ -224,10 +224,56 @@ def t_bios_mirror(E, P, k, j):
 
 _PS = list(range(16, 48))
 
+def t_key_down(E, mods, caps):
+    """Keyboard._key_down: every key press reaches the buffer as exactly one keystroke with its scancode
+    (none lost), whatever the modifiers - except a keypad digit pressed with Alt, which is collected
+    for Alt+number entry and delivered when Alt is released (_key_up)."""
+    from pcbasic.basic.inputs import keyboard as kb
+    from pcbasic.basic.base import scancode
+    class _Buf(object):
+        _pyvc_trusted = True
+        def __init__(self):
+            self.items = []
+        def append(self, c, scan):
+            self.items.append((c, scan))
+    class _CP(object):
+        _pyvc_trusted = True
+        def unicode_to_bytes(self, u):
+            return u.encode('latin-1')
+    k = object.__new__(kb.Keyboard)
+    k.buf = _Buf()
+    k._codepage = _CP()
+    k.mod = kb.TOGGLE[scancode.CAPSLOCK] if caps else 0
+    k._ignore_caps = False
+    k.keypad_ascii = b''
+    k.last_scancode = None
+    scan = E.int('scan', 1, 127)
+    E.assume(And(*[scan != t for t in kb.TOGGLE]))     # lock keys toggle their state and are delivered as well
+    r = E.call(k._key_down, u'a', scan, list(mods))
+    E.prove(not r.raised, 'never raises')
+    E.prove(k.last_scancode == scan, 'the last scancode is recorded')
+    keypad = Or(*[scan == d for d in kb.KEYPAD])
+    alt = scancode.ALT in mods
+    if alt and bool(keypad):
+        E.cover('alt+keypad')
+        E.prove(len(k.buf.items) == 0 and len(k.keypad_ascii) == 1, 'Alt + keypad digit is collected for Alt+number entry')
+        r = E.call(k._key_up, scancode.ALT)
+        E.prove(len(k.buf.items) == 1 and k.keypad_ascii == b'', 'and delivered as one keystroke when Alt is released')
+    else:
+        E.cover('key')
+        E.prove(len(k.buf.items) == 1, 'the key press is delivered to the buffer: exactly one keystroke')
+        if len(k.buf.items) == 1:
+            c, sc = k.buf.items[0]
+            E.prove(sc == scan, 'with its scancode')
+            E.prove(c == (b'A' if caps else b'a'), 'and its character (Caps Lock applied)')
+
+
 TASKS = [
     Task('KeyboardBuffer.append', t_append,
          cases=[{'P': P, 'k': k, 'check_full': True} for P in (16, 17, 23, 31, 32, 40, 47) for k in range(0, 16)] +
                [{'P': P, 'k': k, 'check_full': False} for P in (16, 29) for k in (0, 14, 15, 16, 20)]),
+    Task('Keyboard._key_down (no key press lost)', t_key_down, covers=('key', 'alt+keypad'),
+         cases=[{'mods': m, 'caps': c} for m in ((), (56,), (29,), (56, 29), (42,), (54, 56)) for c in (False, True)]),
     Task('KeyboardBuffer.getc/peek', t_getc, cases=[{'P': P, 'k': k} for P in (16, 21, 32, 47) for k in range(0, 16)]),
     Task('KeyboardBuffer ring mirror', t_mirror, cases=[{'P': P, 'k': k} for P in _PS for k in range(0, 16)]),
     Task('KeyboardBuffer.ring_set_boundaries (POKE 1050, PEEK(1052))', t_clear_by_poke,
